@@ -152,7 +152,7 @@ def u64Max : Nat := 18446744073709551616
 
 /-- `update_time` -/
 def updateTime (st : PState) (ns : Nat) : Res PState :=
-  if st.now + ns < u64Max then .ok { st with now := st.now + ns } else .panic "update_time: now += ns overflow"
+  if st.now + ns < u64Max then .ok { st with now := st.now + ns } else .err .runtime st.loc
 
 /-- `add_stmt` -/
 def addStmt (env : Env) (st : PState) : Stmt → Res PState
